@@ -547,6 +547,7 @@ func propC18(w *World, r *Report) {
 	}
 	checkBufferedClose(w, r)
 	checkHeaderSection(w, r)
+	checkRawFileNames(w, r)
 }
 
 // mustPassBeforeReturn: for every return reachable from `from`, do all paths from `from` pass an
@@ -1102,4 +1103,46 @@ func closesParamBeforeOpening(c *ssa.Call) bool {
 		}
 	}
 	return true
+}
+
+// checkRawFileNames: every output file gets a name of its own. Files are created with os.Create (which truncates): a
+// name that repeats - within a rotation interval, or for a second connection shortly after the first - destroys the
+// frames stored under it. The name is a time stamp; its layout must resolve to the second (year, month, day, hour,
+// minute AND second elements of Go's reference time).
+func checkRawFileNames(w *World, r *Report) {
+	e := newTermEnv(w)
+	n := 0
+	for _, fn := range w.funcsInPkg("cmd/thermal-writer") {
+		for _, b := range fn.Blocks {
+			for _, in := range b.Instrs {
+				c, ok := in.(*ssa.Call)
+				if !ok || calleeName(c) != "time.Time.Format" {
+					continue
+				}
+				l, isConst := constString(e.termOf(c.Call.Args[1]))
+				if !isConst {
+					r.Unknown("W4", "file name time layout", w.InstrPos(c), "layout is not a constant")
+					continue
+				}
+				n++
+				var missing []string
+				for _, el := range []struct {
+					name string
+					toks []string
+				}{{"year", []string{"2006", "06"}}, {"month", []string{"01", "Jan"}}, {"day", []string{"02", "_2"}}, {"hour", []string{"15", "03"}}, {"minute", []string{"04"}}, {"second", []string{"05"}}} {
+					has := false
+					for _, t := range el.toks {
+						if strings.Contains(l, t) {
+							has = true
+						}
+					}
+					if !has {
+						missing = append(missing, el.name)
+					}
+				}
+				r.Check(len(missing) == 0, "W4", "output file names are time stamps that resolve to the second (each file has a name of its own)", w.InstrPos(c), fmt.Sprintf("layout %q lacks: %v", l, missing))
+			}
+		}
+	}
+	r.Check(n >= 1, "W4", "output file names are derived from a time stamp", "-", fmt.Sprint(n))
 }
